@@ -94,6 +94,11 @@ fn seq_check(_ctx: &Ctx, c: &SeqCase) -> Report {
     }));
   }
   if let Some(m) = verdict(&r) {
+    use arx_rt::Kind::*;
+    if matches!(r.outcome.kind, StepBudget | FuelExhausted) && super::seq_inv::small_by_reference(c) == Some(false) {
+      rep.classes.push("large-case(budget not judged)".into());
+      return rep;
+    }
     rep.fail = Some(format!("{} | {}", m, render(c, &r)));
   }
   rep
